@@ -3,24 +3,24 @@
 SPECIFICATION Spec
 CONSTANTS
   N = 2
-  NStages = 5
+  NStages = 4
   Mutators = {1}
   MaxReq = 2
   MaxFork = 0
   ExitKinds = {}
   SpurBudget = 1
-  SpawnBudget = 2
+  SpawnBudget = 1
   MaxDepth = 1
   LocalCap = 1
   BatchMax = 0
-  SchedAdds = {3, 5}
+  SchedAdds = {3}
   SentinelStage = 4
   RootAdds = 1
   UseDesig = TRUE
-  SpawnStages = {4, 5}
-  GenHows = {"work", "add"}
-  MutAddStages = {4}
-  MutAddBudget = 1
+  SpawnStages = {4}
+  GenHows = {"work"}
+  MutAddStages = {}
+  MutAddBudget = 0
   InitDisabled = {}
   SchedToggle = {}
   AtomicScan = TRUE
@@ -29,6 +29,7 @@ CONSTANTS
 INVARIANTS
   TypeOK NoPanic ParkedCountOK CondvarOK NoStuck LastParkedUnique FlagProtocol
   StageOrderOK OpenPrefix AllClosedAtGCEnd PacketConservation PacketExactlyOnce RunOnlyOpen
+  SentinelAfterClosure
   STWOnlyWhenStopped BlockedUntilEnd WorldStoppedOnlyInGC
   SurrenderOK ExitClean GoalPriority ExitOnlyOnExitGoal ParkedZeroWhenAllExited
 CHECK_DEADLOCK FALSE
